@@ -36,7 +36,16 @@ WORLDS = {
     "x3": [("x", (3,), 0, False), ("y", (2,), 5, False)],
     "x22": [("x", (2, 2), 0, False), ("y", (2,), 7, False)],
 }
-BOUNDS = {"quick": [("x3", 4), ("x22", 3)], "thorough": [("x3", 5), ("x22", 4)]}
+# a non-C-contiguous leaf with a reshape view of its transpose already taken, and matmul among the consumers (an op that hands back a
+# freshly allocated, C-ordered gradient); the two prefix statements are part of every history of that world
+WORLDS["x22F"] = [("x", (2, 2), 0, False, "F"), ("y", (2,), 7, False)]
+PREFIX = {"x22F": [("view", "v", "x", "T"), ("view", "vv", "v", "flat")]}
+CFG_F = dict(CFG, views=("T",), ops1=("mul2",), ops2=("matmul", "mul"), set_idx=(), iops=("iadd",), outs=(), setshape={}, max_live=6)
+BOUNDS = {"quick": [("x3", 4), ("x22", 3), ("x22F", 3)], "thorough": [("x3", 5), ("x22", 4), ("x22F", 4)]}
+
+
+def cfg_of(wname):
+    return CFG_F if wname == "x22F" else CFG
 
 
 def enabled(m, cfg, out, n_back):
@@ -334,7 +343,9 @@ def run_task(task):
     wname, prefix, depth, seed = task
     init = WORLDS[wname]
     acc = base.Acc()
-    stack = [list(prefix)]
+    pre = list(PREFIX.get(wname, ()))
+    stack = [list(prefix)]  # (task prefixes already start with the world's PREFIX statements)
+    depth = depth + len(pre)
     while stack:
         h = stack.pop()
         f, model, nb = run_one(init, h, seed)
@@ -358,7 +369,7 @@ def run_task(task):
         if len(acc.samples) < 2 and len(h) == depth and nb:
             acc.samples.append("; ".join("L=sum_i (w_i*t_i).sum(); L.backward(); del L" if s[0] == "bwall" else render(s) for s in h))
         if len(h) < depth:
-            for st in reversed(enabled(model, CFG, "t%d" % len(h), nb)):
+            for st in reversed(enabled(model, cfg_of(wname), "t%d" % len(h), nb)):
                 stack.append(h + [st])
     return acc
 
@@ -367,7 +378,7 @@ def plan(tier, seed):
     tasks = []
     for wname, depth in BOUNDS[tier]:
         init = WORLDS[wname]
-        pre = [[]]
+        pre = [list(PREFIX.get(wname, ()))]
         for _ in range(2):
             nxt = []
             for h in pre:
@@ -378,8 +389,8 @@ def plan(tier, seed):
                         nb += 1
                     elif st[0] != "null_grad":
                         m.apply(st)
-                nxt += [h + [st] for st in enabled(m, CFG, "t%d" % len(h), nb)]
-            tasks += [(wname, h, len(h), seed) for h in pre]
+                nxt += [h + [st] for st in enabled(m, cfg_of(wname), "t%d" % len(h), nb)]
+            tasks += [(wname, h, len(h) - len(PREFIX.get(wname, ())), seed) for h in pre]
             pre = nxt
         tasks += [(wname, p, depth, seed) for p in pre]
     return dict(
